@@ -66,6 +66,12 @@ def build_graph(spec: dict):
         g = lambda: dags.every_edge_kind(with_loopy=spec.get("loopy", False))   # noqa: E731
     elif fam == "all_kinds":
         g = kinds.all_kind_graph
+    elif fam == "nested_calls":
+        g = lambda: dags.nested_calls(spec["depth"], spec["order"], spec.get("repeat", 2),   # noqa: E731
+                                      tag=_tag_named(spec.get("tag")))
+    elif fam == "twin":
+        from ..gen.kinds import VBarTag
+        g = lambda: dags.twin_graph(spec["mode"], spec["order"], spec["fan"], spec["levels"], VBarTag())   # noqa: E731
     elif fam == "random":
         g = lambda: dags.random_dag(random.Random(spec["seed"]), size=spec.get("size", 25),   # noqa: E731
                                     duplicates=spec.get("rdup", False))
@@ -75,6 +81,13 @@ def build_graph(spec: dict):
     if spec.get("dedup"):
         graph = reflective_dedup(graph)
     return graph
+
+
+def _tag_named(name):
+    if not name:
+        return None
+    from ..gen import kinds as k
+    return {"VFooTag": k.VFooTag, "VBarTag": k.VBarTag}[name]()
 
 
 def reflective_dedup(root):
@@ -670,6 +683,287 @@ def check_model_sanity(ctx):
     ctx.note_batch("model-sanity", len(qs), bad, exhaustive=True)
 
 
+
+# --------------------------------------------------------------------------
+# nested, shared functions: every body exactly once per mapper run
+# --------------------------------------------------------------------------
+
+def nested_specs(ctx) -> list[dict]:
+    specs = [{"family": "nested_calls", "depth": 1, "order": "outer-first", "repeat": 2}]
+    for depth in (2, 3):
+        for order in ("outer-first", "inner-first", "mixed"):
+            specs.append({"family": "nested_calls", "depth": depth, "order": order, "repeat": 2})
+    specs.append({"family": "nested_calls", "depth": 3, "order": "outer-first", "repeat": 3})
+    if ctx.thorough:
+        specs += [{"family": "nested_calls", "depth": d, "order": o, "repeat": r}
+                  for d in (2, 3) for o in ("outer-first", "inner-first", "mixed") for r in (1, 3)]
+    return specs
+
+
+def _fn_name(v: heapser.HeapView, ns_tag: int) -> str:
+    from pytato.tags import FunctionIdentifier
+    if ns_tag < 0:
+        return "<outer>"
+    tags = [tg for tg in v.nodes[ns_tag].tags if isinstance(tg, FunctionIdentifier)]
+    return str(tags[0].identifier) if tags else f"fn#{ns_tag}"
+
+
+def check_function_bodies(ctx, t: ch.Tables):
+    """Traced functions calling traced functions, the same definition called from several bodies and
+    from top level, in both visiting orders: a mapper that enters function bodies (through clones made
+    by `clone_for_callee`, instrumented at class level, one shared log) must invoke its per-node
+    method exactly ONCE per mapper run on every node of every body and on every FunctionDefinition."""
+    alias_of = ch.mapper_alias(t)
+    entries = []
+    for e in t.entries:
+        if e.family not in ("transform", "analysis") or not e.cached:
+            continue
+        if e.name in t.skips or alias_of.get(e.name, e.name) in t.skips:
+            continue
+        if {"Call", "FunctionDefinition", "NamedCallResult"} & set(ch.refused_kinds(t, e.name)):
+            continue
+        entries.append(e)
+    queries, pend = [], []
+    n = dis = 0
+    for spec in nested_specs(ctx):
+        graph = build_graph(spec)
+        v = heapser.view(graph)
+        ns = namespaces(v)
+        shared = [i for i, s_ in enumerate(ns) if len(s_) > 1 and v.kind(i) != "FunctionDefinition"]
+        assert not shared, f"generator shares arrays between namespaces: {shared[:3]}"
+        for e in entries:
+            alias = alias_of.get(e.name, e.name)
+            log, res, err, secs = run_mapper(e, graph)
+            n += 1
+            if err is not None:
+                dis += 1
+                if err == "TIMEOUT":
+                    ctx.violation(f"mapper-revisits-function-body:{alias}",
+                                  f"{e.name} did not finish nested shared functions ({spec}, {len(v.nodes)} nodes) within "
+                                  f"{TRAVERSAL_LIMIT_S:.0f} s — bodies are traversed once per call site",
+                                  {"check": "function-bodies", "mapper": e.name, "graph": spec,
+                                   "rec_calls_before_timeout": len(log.pairs)})
+                elif "collision" in str(err) and not duplicates_within_namespace(v):
+                    ctx.violation(f"mapper-cross-namespace-collision:{alias}",
+                                  f"{e.name} reports a cache collision on {spec} although no namespace contains two equal "
+                                  f"nodes: it maps a function body with the CALLER's array cache, so the (equal, e.g. "
+                                  f"`in__pt_0`) parameter placeholders of two different functions collide",
+                                  {"check": "function-bodies", "mapper": e.name, "graph": spec,
+                                   "error": f"{type(err).__name__}: {str(err)[:200]}"})
+                else:
+                    ctx.violation(f"mapper-raises:{alias}:{type(err).__name__}",
+                                  f"{e.name} raised {type(err).__name__}: {str(err)[:160]} on {spec}",
+                                  {"check": "function-bodies", "mapper": e.name, "graph": spec})
+                continue
+            counts = {v.index[i]: c for i, c in log.method_calls.items() if i in v.index}
+            multi = {i: c for i, c in counts.items() if c > 1}
+            in_body = {i: c for i, c in multi.items() if -1 not in ns[i] or v.kind(i) == "FunctionDefinition"}
+            if in_body:
+                dis += 1
+                i, c = max(in_body.items(), key=lambda p_: p_[1])
+                where = _fn_name(v, i if v.kind(i) == "FunctionDefinition" else min(ns[i]))
+                ctx.violation(f"mapper-revisits-function-body:{alias}",
+                              f"{e.name} on {spec}: per-node method invoked {c} times on a {v.kind(i)} node of function "
+                              f"'{where}' ({len(in_body)} body nodes / definitions visited more than once in one mapper "
+                              f"run; the definition is called from {sum(1 for k in range(len(v.nodes)) if v.kind(k) == 'Call')} "
+                              f"call sites) — each body must be traversed once",
+                              {"check": "function-bodies", "mapper": e.name, "graph": spec,
+                               "invocations": {f"{k}:{v.kind(k)}@{_fn_name(v, k if v.kind(k) == 'FunctionDefinition' else min(ns[k]))}": c_
+                                               for k, c_ in sorted(in_body.items())[:25]}})
+                continue
+            if multi:
+                dis += 1
+                i, c = max(multi.items(), key=lambda p_: p_[1])
+                ctx.violation(f"mapper-revisits:{alias}",
+                              f"{e.name} on {spec}: per-node method invoked {c} times on an outer {v.kind(i)} node",
+                              {"check": "function-bodies", "mapper": e.name, "graph": spec})
+                continue
+            excl = ch.exclusions_for(t, e.name)
+            pend.append((e, spec, v, ns, set(counts), len(queries)))
+            queries.append(model_log(v, excl))
+    answers = common.driver_query_parallel(queries)
+    for e, spec, v, ns, real, qi in pend:
+        alias = alias_of.get(e.name, e.name)
+        model = set(heapser.parse_ids(answers[qi][3:]))
+        if real != model:
+            dis += 1
+            missing = sorted(model - real)
+            if missing:
+                i = missing[0]
+                ctx.violation(f"mapper-skips-function-body:{alias}",
+                              f"{e.name} on {spec}: never invoked its method on a {v.kind(i)} node of function "
+                              f"'{_fn_name(v, i if v.kind(i) == 'FunctionDefinition' else min(ns[i]))}' "
+                              f"({len(missing)} reachable nodes not visited; the model and the reflective walk reach them)",
+                              {"check": "function-bodies", "mapper": e.name, "graph": spec,
+                               "missed": [f"{j}:{v.kind(j)}" for j in missing[:20]]})
+            else:
+                ctx.broken.append(f"correspondence:function-bodies:{e.name}:{spec}:extra={sorted(real - model)[:5]}")
+    ctx.note_batch("nested-shared-functions", n, dis, exhaustive=False,
+                   graphs=len(nested_specs(ctx)), mappers=[e.name for e in entries])
+
+
+# --------------------------------------------------------------------------
+# two distinct inputs with equal results, the later one shared by several users
+# --------------------------------------------------------------------------
+
+def twin_specs(ctx) -> list[dict]:
+    specs = []
+    for mode in ("tag", "dup"):
+        for order in ("plain-first", "twin-first"):
+            specs.append({"family": "twin", "mode": mode, "order": order, "fan": 3, "levels": 2})
+            specs.append({"family": "twin", "mode": mode, "order": order, "fan": 2, "levels": 3})
+            if ctx.thorough:
+                specs += [{"family": "twin", "mode": mode, "order": order, "fan": f_, "levels": l_}
+                          for f_, l_ in ((1, 4), (4, 1), (5, 3), (3, 6))]
+    return specs
+
+
+def _twin_mappers(mode: str):
+    """(signature name, table row for the edge selection, constructor, call)"""
+    import pytato as pt
+    import pytato.transform as ptf
+    from ..gen.kinds import VBarTag
+
+    def strip(expr):
+        if isinstance(expr, pt.Array) and expr.tags_of_type(VBarTag):
+            return expr.without_tags(VBarTag())
+        return expr
+
+    class IdKeyedMapAndCopy(ptf.CachedMapAndCopyMapper):
+        """as users subclass it: cache keyed by object identity"""
+        def get_cache_key(self, expr):
+            return id(expr)
+
+        def clone_for_callee(self, function):
+            return type(self)(self.map_fn, _function_cache=self._function_cache)
+
+    class IdKeyedCopy(ptf.CopyMapper):
+        def get_cache_key(self, expr):
+            return id(expr)
+
+    class IdKeyedCopyWithArgs(ptf.CopyMapperWithExtraArgs):
+        def get_cache_key(self, expr, *args):
+            return (id(expr), args)
+    for c in (IdKeyedMapAndCopy, IdKeyedCopy, IdKeyedCopyWithArgs):
+        c.__name__ = c.__bases__[0].__name__
+    call1 = lambda inst, g: inst(g)                       # noqa: E731
+    if mode == "tag":
+        return [("CachedMapAndCopyMapper", "CachedMapAndCopyMapper", lambda: ptf.CachedMapAndCopyMapper(strip), call1,
+                 "(untag VBarTag)"),
+                ("CachedMapAndCopyMapper[id-keyed]", "CachedMapAndCopyMapper", lambda: IdKeyedMapAndCopy(strip), call1,
+                 "(untag VBarTag)")]
+    return [("Deduplicator", "Deduplicator", ptf.Deduplicator, call1, "id"),
+            ("CopyMapper[id-keyed]", "CopyMapper", IdKeyedCopy, call1, "id"),
+            ("CopyMapperWithExtraArgs[id-keyed]", "CopyMapperWithExtraArgs", IdKeyedCopyWithArgs,
+             lambda inst, g: inst(g, 7), "id"),
+            ("CachedMapAndCopyMapper[id-keyed]", "CachedMapAndCopyMapper", lambda: IdKeyedMapAndCopy(lambda x: x), call1,
+             "id")]
+
+
+def _parallel_images(a, b) -> dict[int, set[int]]:
+    """walk input and result graph side by side (same labels): which result objects stand where the
+    input object stood — read off the RESULT GRAPH, independent of the mapper's cache"""
+    out: dict[int, set[int]] = {}
+    seen: set[tuple[int, int]] = set()
+    st = [(a, b)]
+    while st:
+        x, y = st.pop()
+        if (id(x), id(y)) in seen:
+            continue
+        seen.add((id(x), id(y)))
+        out.setdefault(id(x), set()).add(id(y))
+        cx = reflect.children(x, into_functions=True)
+        cy = reflect.children(y, into_functions=True)
+        if [lb for lb, _ in cx] != [lb for lb, _ in cy]:
+            out.setdefault(id(x), set()).add(-1)        # structure changed
+            continue
+        st += [(c1, c2) for (_, c1), (_, c2) in zip(cx, cy)]
+    return out
+
+
+def check_result_sharing(ctx, t: ch.Tables):
+    """`TransformMapperCache.add` with sharing: every use of a shared input node — first use (cache miss)
+    and later uses (cache hits) alike — must get ONE and the same result object; equal results of
+    different inputs must be one object; no more distinct nodes than given."""
+    import pytato.transform as ptf
+    queries, pend = [], []
+    n = dis = 0
+    for spec in twin_specs(ctx):
+        graph = build_graph(spec)
+        v = heapser.view(graph)
+        for name, row, make, call, mode_q in _twin_mappers(spec["mode"]):
+            base = name.split("[")[0]
+            inst = ch.instrument(make())
+            log = ch.CallLog()
+            n += 1
+            try:
+                with ch.logging_to(log), time_limit(TRAVERSAL_LIMIT_S):
+                    res = call(inst, graph)
+            except Exception as ex:    # noqa: BLE001
+                dis += 1
+                ctx.violation(f"mapper-raises:{base}:{type(ex).__name__}",
+                              f"{name} raised {type(ex).__name__}: {str(ex)[:160]} on {spec}",
+                              {"check": "result-sharing", "mapper": name, "graph": spec})
+                continue
+            rv = heapser.view(res)
+            problems = []
+            # (a) the instrumented old -> new map: all uses of one input object
+            split = {i: {id(r) for r in rs} for i, rs in log.rec_results.items() if len({id(r) for r in rs}) > 1}
+            split = {v.index[i]: s_ for i, s_ in split.items() if i in v.index}
+            # (b) the same, read off the result graph
+            imgs = _parallel_images(graph, res)
+            split_g = {v.index[i]: s_ for i, s_ in imgs.items() if len(s_) > 1 and i in v.index}
+            if split or split_g:
+                i = sorted(set(split) | set(split_g))[0]
+                users = sorted({p for p in range(len(v.nodes)) for _, _, j in v.edges[p] if j == i})
+                problems.append(
+                    f"the {len(users)} uses of one shared {v.kind(i)} input node were mapped to "
+                    f"{len(split.get(i, ())) or len(split_g.get(i, ()))} different result objects "
+                    f"({len(set(split) | set(split_g))} input nodes affected)")
+                sig = f"transform-splits-shared-node:{base}"
+            # (c) no equal-but-distinct nodes in the result
+            rd = duplicates_within_namespace(rv)
+            collision = None
+            try:
+                ptf.CopyMapper()(res)
+            except ValueError as ex:
+                collision = str(ex)[:100]
+            if (rd or collision) and not problems:
+                sig = f"transform-leaves-duplicates:{base}"
+            if rd or collision:
+                problems.append(f"the result contains {len(rd)} equal-but-distinct node pairs"
+                                + (f"; a default CopyMapper over it reports: {collision}" if collision else ""))
+            # (d) never more distinct nodes than given
+            if len(rv.nodes) > len(v.nodes):
+                if not problems:
+                    sig = f"transform-creates-nodes:{base}"
+                problems.append(f"{len(rv.nodes)} distinct result objects for {len(v.nodes)} distinct input objects")
+            if problems:
+                dis += 1
+                ctx.violation(sig, f"{name} on {spec}: " + "; ".join(problems),
+                              {"check": "result-sharing", "mapper": name, "graph": spec, "problems": problems,
+                               "split_by_cache_log": {f"{k}:{v.kind(k)}": len(s_) for k, s_ in sorted(split.items())[:10]},
+                               "split_in_result_graph": {f"{k}:{v.kind(k)}": len(s_) for k, s_ in sorted(split_g.items())[:10]},
+                               "expected": "one result object per input node, duplicate-free result"})
+                continue
+            excl = ch.exclusions_for(t, row)
+            pend.append((name, spec, v, len(rv.nodes), len(queries)))
+            queries.append(f"(mapper transform {v.sexp()} {v.root} {heapser.excl(excl)} {mode_q})")
+    answers = common.driver_query_parallel(queries)
+    for name, spec, v, rnodes, qi in pend:
+        m_nodes = int(answers[qi][3:].split(" ", 4)[2])
+        if rnodes != m_nodes:
+            dis += 1
+            base = name.split("[")[0]
+            if rnodes > m_nodes:
+                ctx.violation(f"transform-loses-sharing:{base}",
+                              f"{name} on {spec}: {rnodes} distinct result nodes, the model (first-seen equal result "
+                              f"reused) has {m_nodes}",
+                              {"check": "result-sharing", "mapper": name, "graph": spec})
+            else:
+                ctx.broken.append(f"correspondence:result-sharing:{name}:{spec}:real={rnodes}:model={m_nodes}")
+    ctx.note_batch("result-dedup-with-sharing", n, dis, exhaustive=False, graphs=len(twin_specs(ctx)))
+
 # --------------------------------------------------------------------------
 
 def run(ctx: common.Ctx):
@@ -697,6 +991,8 @@ def run(ctx: common.Ctx):
     check_collisions(ctx, t)
     check_transforms(ctx, t)
     check_pair_mappers(ctx)
+    check_function_bodies(ctx, t)
+    check_result_sharing(ctx, t)
     for th in THEOREMS[:4]:
         ctx.sample({"theorem": th})
     ctx.broken = sorted(set(ctx.broken))[:40]
@@ -725,6 +1021,15 @@ def replay(ctx, path):
               f"nodes_with_method_calls={len(log.method_calls)} visited_more_than_once={multi}")
         print(f"expected: no error, {len(v.nodes)} or fewer nodes each visited exactly once")
         return 1 if (err is not None or multi) else 0
+    if r.get("check") in ("function-bodies", "result-sharing"):
+        sub = common.Ctx(prop=ctx.prop, tier=ctx.tier, seed=ctx.seed)
+        (check_function_bodies if r["check"] == "function-bodies" else check_result_sharing)(sub, t)
+        hits = [v_ for v_ in sub.violations if v_["signature"] == r.get("signature")] + \
+            ([r["signature"]] if r.get("signature") in sub.known_hit else [])
+        print("observed on the current tree:", "still violated" if hits else "no longer violated")
+        for v_ in sub.violations[:3]:
+            print("  ", v_["signature"], "-", v_["what"][:300])
+        return 1 if hits else 0
     print("re-running the C13 check on the current tree …")
     run(ctx)
     return ctx.finish()
